@@ -180,6 +180,76 @@ func vDelivered(src []vNode, p string, before, after []vNode, r string) bool {
 	return true
 }
 
+// VerifC06_BetweenFilesystems: copy / move from one filesystem to another one of
+// the same type (two separate in-memory backends), including the same path on
+// both sides. The source side is never changed by a copy, a move never loses a
+// file, a success has delivered the source, and every handle is closed on both
+// sides.
+func VerifC06_BetweenFilesystems() {
+	recA, fsA := vNewFs()
+	recB, fsB := vNewFs()
+	vC06Populate(fsA)
+	switch verif.Choice("destinationSide", 3) {
+	case 1:
+		_ = fsB.MkDir("/d")
+	case 2: // part of the same tree is there already
+		_ = fsB.MkDir("/a/b")
+		_ = fsB.WriteFile("/a/b/old", []byte("o"), 0o644)
+	}
+	ctx := context.Background()
+	p := vC06Paths[verif.Choice("p", len(vC06Paths))]
+	q := vC06Paths[verif.Choice("q", len(vC06Paths))]
+	move := verif.Bool("move")
+	beforeA, beforeB := vSnapshot(recA.inner, "/"), vSnapshot(recB.inner, "/")
+	srcBefore := vSubtree(beforeA, p)
+	recA.reset()
+	recB.reset()
+	var err error
+	if move {
+		err = MoveBetweenFS(ctx, fsA, p, fsB, q)
+	} else {
+		err = CopyBetweenFS(ctx, fsA, p, fsB, q)
+	}
+	afterA, afterB := vSnapshot(recA.inner, "/"), vSnapshot(recB.inner, "/")
+	verif.Assert("no_handle_left_open", recA.opens == recA.closes && recB.opens == recB.closes)
+	verif.Observe("failed", err != nil)
+	bi := vIndex(beforeB)
+	_, exists := vIndex(beforeA)[p]
+	// kind conflicts are exempt from the reference semantics (see VerifC06_Programs)
+	kindConflict := vFileOnTheWay(beforeB, q)
+	if dst, there := bi[q]; there && exists && dst.dir != vIndex(beforeA)[p].dir {
+		kindConflict = true
+	}
+	if !move {
+		verif.Assert("copy_leaves_its_source_untouched", vSameTree(beforeA, afterA))
+	} else {
+		verif.Assert("a_move_only_removes_its_source", vChangesConfinedTo(beforeA, afterA, p))
+		// whatever the outcome, every file of the source is still on one side or the other
+		if !kindConflict {
+			for _, n := range srcBefore {
+				if n.dir {
+					continue
+				}
+				_, kept := vIndex(afterA)[n.path]
+				_, atDest := vIndex(afterB)[q+n.path[len(p):]]
+				_, underName := vIndex(afterB)[q+"/"+vlBaseName(p)+n.path[len(p):]]
+				verif.Assert("a_move_never_loses_a_file", kept || atDest || underName)
+			}
+		}
+	}
+	if !kindConflict {
+		verif.Assert("only_destination_changes", vChangesConfinedTo(beforeB, afterB, q))
+	}
+	if exists && err == nil && !kindConflict {
+		verif.Assert("a_successful_copy_delivers_the_source",
+			vDelivered(srcBefore, p, beforeB, afterB, q) || vDelivered(srcBefore, p, beforeB, afterB, q+"/"+vlBaseName(p)))
+		if move {
+			_, still := vIndex(afterA)[p]
+			verif.Assert("a_successful_move_removes_the_source", !still)
+		}
+	}
+}
+
 // VerifC06_Programs: programs of 1..2 (thorough 3) calls over a small path alphabet.
 func VerifC06_Programs() {
 	rec, fs := vNewFs()
